@@ -1,6 +1,7 @@
 package chainh
 
 import (
+	"os"
 	"encoding/json"
 	"fmt"
 	"math/big"
@@ -56,6 +57,8 @@ func NewReplayer(dbPath string, seed int64) (*Replayer, error) {
 	}
 	p := s.Cfg.P2P.GetNetParams()
 	r := &Replayer{S: s, Fault: fr, Params: p, Seed: seed, Level: 1}
+	fr.Row = os.Getenv("VERIF_ROWFAULT") == "1"
+	fr.Exec = func(q string) error { _, err := s.DB.Exec(q); return err }
 	bh := p.GenesisBlock.Header
 	raw := RawHeader{Version: bh.Version, Prev: bh.PrevBlock, Merkle: bh.MerkleRoot, Time: uint32(bh.Timestamp.Unix()), Bits: bh.Bits, Nonce: bh.Nonce}
 	r.Genesis = raw.Hash()
